@@ -544,6 +544,8 @@ pub fn run_c12(ctx: &Ctx) -> i32 {
     quiet_keepalive_scenario(&shared);
     // a request body that crosses the receive timeout is never taken for requests
     slow_body_scenarios(&shared, ctx.thorough());
+    // requests pipelined behind a flush of a small / big store
+    flush_order_scenarios(ctx, &shared);
     shared.into_inner().unwrap().finish()
 }
 
@@ -717,6 +719,125 @@ pub fn slow_body_scenarios(shared: &Mutex<Evidence>, full: bool) {
                     ),
                 ),
                 json!({"engine":"slow-body","scenario":o.name,"canary_stored":o.canary,"answers":o.answers,"connection_end":format!("{:?}",o.end)}),
+            );
+        }
+    }
+}
+
+/// In-order execution across a flush, for stores of every size: requests pipelined behind a flush (same segment)
+/// see an empty store, and what they store is not touched by that flush - also when looked up a little later
+/// through another connection.
+pub fn flush_order_scenarios(ctx: &Ctx, shared: &Mutex<Evidence>) {
+    let sizes: Vec<usize> = if ctx.thorough() { vec![0, 3, 300, 4097, 5000, 20_000, 100_000] } else { vec![3, 5000, 20_000] };
+    struct Out {
+        name: String,
+        problems: Vec<String>,
+        answers: Vec<String>,
+    }
+    let mut outs: Vec<Out> = vec![];
+    std::thread::scope(|s| {
+        let mut hs = vec![];
+        for (si, &size) in sizes.iter().enumerate() {
+            for quiet in [false, true] {
+                hs.push(s.spawn(move || -> Option<Out> {
+                    use std::io::Write;
+                    let srv = Server::start(SrvCfg { workers: if (si + quiet as usize) % 2 == 0 { None } else { Some(2) }, ..Default::default() }).ok()?;
+                    // prefill through the store's own front door
+                    {
+                        let mut conn = crate::l1::Conn::new(srv.stack.memc.clone(), 1 << 20);
+                        let mut buf = vec![];
+                        for i in 0..size {
+                            wire::store(op::SETQ, format!("old-{}", i).as_bytes(), b"old", 0, 0, i as u32, 0).encode_into(&mut buf);
+                            if buf.len() > 60_000 {
+                                let _ = conn.feed(&buf);
+                                buf.clear();
+                            }
+                        }
+                        let _ = conn.feed(&buf);
+                    }
+                    let old_a = b"old-0".to_vec();
+                    let old_b = format!("old-{}", size.saturating_sub(1)).into_bytes();
+                    let frames = vec![
+                        wire::get(op::GET, &old_a, 1),
+                        wire::flush(if quiet { op::FLUSHQ } else { op::FLUSH }, None, 2),
+                        wire::get(op::GET, &old_a, 3),
+                        wire::get(op::GETK, &old_b, 4),
+                        wire::store(op::SET, b"new-a", b"after-flush", 5, 0, 5, 0),
+                        wire::store(op::ADD, &old_a, b"added-after-flush", 0, 0, 6, 0),
+                        wire::counter(op::INCR, b"new-c", 1, 41, 0, 7, 0),
+                        wire::get(op::GET, b"new-a", 8),
+                        wire::simple(op::NOOP, SENTINEL),
+                    ];
+                    let mut stream = vec![];
+                    for f in &frames {
+                        f.encode_into(&mut stream);
+                    }
+                    let mut c = Cli::connect(srv.port).ok()?;
+                    c.s.write_all(&stream).ok()?;
+                    let want = if quiet { 8 } else { 9 };
+                    c.read_frames(want, Duration::from_secs(10));
+                    let rs = parse_prefix(&c.rx);
+                    let by = |o: u32| rs.iter().find(|r| r.opaque == o);
+                    let problems_cell: std::cell::RefCell<Vec<String>> = std::cell::RefCell::new(vec![]);
+                    let expect = |o: u32, what: &str, ok: &dyn Fn(&Resp) -> bool| match by(o) {
+                        Some(r) if ok(r) => {}
+                        other => problems_cell.borrow_mut().push(format!("request #{} ({}) answered {:?}", o, what, other.map(|r| r.brief()))),
+                    };
+                    if size > 0 {
+                        expect(1, "get of an old key before the flush: hit", &|r| r.status == st::OK);
+                    }
+                    if !quiet {
+                        expect(2, "flush: OK", &|r| r.status == st::OK);
+                    } else if by(2).is_some() {
+                        problems_cell.borrow_mut().push("flushq was answered".into());
+                    }
+                    expect(3, "get of an old key pipelined behind the flush: miss", &|r| r.status == st::NOT_FOUND);
+                    expect(4, "getk of another old key behind the flush: miss", &|r| r.status == st::NOT_FOUND);
+                    expect(5, "set behind the flush: OK", &|r| r.status == st::OK);
+                    expect(6, "add of an old key behind the flush: OK (the key is gone)", &|r| r.status == st::OK);
+                    expect(7, "incr creating a counter behind the flush: 41", &|r| r.status == st::OK && r.value == 41u64.to_be_bytes());
+                    expect(8, "get of the key set behind the flush: hit", &|r| r.status == st::OK && r.value == b"after-flush");
+                    let mut problems = problems_cell.into_inner();
+                    let ops: Vec<u32> = rs.iter().map(|r| r.opaque).filter(|o| *o != SENTINEL).collect();
+                    if ops.windows(2).any(|w| w[0] >= w[1]) {
+                        problems.push(format!("responses out of request order: opaques {:?}", ops));
+                    }
+                    // a little later, through another connection: the acknowledged stores are still there
+                    for wait_ms in [30u64, 300] {
+                        std::thread::sleep(Duration::from_millis(wait_ms));
+                        let mut obs = Cli::connect(srv.port).ok()?;
+                        for (k, what, want_hit) in [(&b"new-a"[..], "key set behind the flush", true), (&old_a[..], "key added behind the flush", true), (b"new-c", "counter created behind the flush", true), (&old_b[..], "old key", false)] {
+                            if size == 0 && !want_hit {
+                                continue;
+                            }
+                            match ask(&mut obs, &wire::get(op::GET, k, 70)) {
+                                Some(r) if (r.status == st::OK) == want_hit => {}
+                                other => problems.push(format!("{} ms after the pipeline: get of the {} answered {:?}", wait_ms, what, other.map(|r| r.brief()))),
+                            }
+                        }
+                    }
+                    Some(Out { name: format!("{} with {} items stored", if quiet { "flushq" } else { "flush" }, size), problems, answers: rs.iter().map(|r| r.brief()).collect() })
+                }));
+            }
+        }
+        for h in hs {
+            if let Ok(Some(o)) = h.join() {
+                outs.push(o);
+            }
+        }
+    });
+    let mut e = shared.lock().unwrap();
+    if outs.len() < sizes.len() * 2 {
+        e.inconclusive.push(format!("flush-order scenarios: {} of {} could not be run", sizes.len() * 2 - outs.len(), sizes.len() * 2));
+    }
+    for o in &outs {
+        e.evaluations += 1;
+        e.count("flush_order:scenarios", 1);
+        e.nontrivial.insert(fnv(format!("flushorder:{}", o.name).as_bytes()));
+        if !o.problems.is_empty() {
+            e.violation(
+                Viol::new(&["C12", "C08", "C01"], "flush-out-of-order", format!("{}: requests pipelined behind the flush were not executed after it: {}", o.name, o.problems.join("; "))),
+                json!({"engine":"pipe-flush-order","scenario":o.name,"problems":o.problems,"answers":o.answers}),
             );
         }
     }
